@@ -17,12 +17,11 @@
 
    PROVED below: codegen_correct_partial -- the same equation for every program
    of the fragment `in_fragment p = true` (Frag.v, a boolean predicate on the
-   syntax): ALL expressions except lambda, comprehensions and calls with * / **
-   arguments (i.e. names, literals, unary / binary operators incl. `not in`,
+   syntax): ALL expressions except lambda and comprehensions (i.e. names, literals, unary / binary operators incl. `not in`,
    and / or / not / conditional, tuple / list / dict displays, index, slice,
-   dot, calls with positional and named arguments); ALL statements except load
-   and assignment to a field (x.f = ...): expression statements, assignment and
-   augmented assignment to names / indexes / nested sequences of targets, if,
+   dot, calls with positional, named, *args and **kwargs arguments); ALL statements except load:
+   expression statements, assignment and
+   augmented assignment to names / indexes / fields / nested sequences of targets, if,
    while, for, break, continue, pass, return, def with every kind of parameter
    (defaults evaluated at definition, *args, **kwargs, keyword-only) whose
    variables no nested function mentions and which is not nested inside another
@@ -31,8 +30,7 @@
    library (operators on values, built-in functions, argument binding) is used
    opaquely, i.e. the theorem holds for ANY behaviour of those primitives.
    MISSING from the full statement: comprehensions (block-local slots), closures
-   / lambda (cells and free variables), * / ** call arguments, field targets,
-   load, and the `+`-chain literal folding of fcomp.plus (codegen_correct_partial
+   / lambda (cells and free variables), load, and the `+`-chain literal folding of fcomp.plus (codegen_correct_partial
    is about compile_prog p; fold_prog and the slot-numbering pass number_prog
    are the identity on such programs, see codegen_correct_partial_folded).  Those
    constructs are covered on every run by ties (a), (b), (c) of checks/c01.py. *)
